@@ -1592,6 +1592,14 @@ pub fn oracle_c08(scn: &E2Scn, d: &D2, out: &RunOut, stats: &mut Stats) -> Vec<V
         }
         // remainder of a pending graceful stop at q, plus queued time-consuming work
         let mut rem = 0u64;
+        // async spawn hooks / error handlers installed on the job take their time at every spawn attempt
+        let hook_ms: u64 = plan.ops.iter().map(|o| if let Op::SetHook { async_ms: Some(ms) } = o { *ms } else { 0 }).max().unwrap_or(0);
+        let err_ms: u64 = plan.ops.iter().map(|o| if let Op::SetErr { async_ms: Some(ms) } = o { *ms } else { 0 }).max().unwrap_or(0);
+        let spawning = plan.ops.iter().chain(plan.later.iter().map(|l| &l.1)).filter(|o| o.spawn_capable()).count() as u64;
+        rem += (hook_ms + err_ms) * spawning;
+        if hook_ms + err_ms > 0 {
+            stats.hit("probe:quit-with-async-hook-or-error-handler");
+        }
         for op in plan.ops.iter().chain(plan.later.iter().map(|l| &l.1)) {
             match op {
                 Op::StopSig { grace, .. } | Op::TryRestartSig { grace, .. } | Op::RestartSig { grace, .. } => {
